@@ -5,6 +5,8 @@ import GontainerModel.Lemmas.Chunk
 import GontainerModel.Lemmas.EscapeTokens
 import GontainerModel.Lemmas.GoQuote
 import GontainerModel.Model.Token
+import GontainerModel.Lemmas.TokenClass
+import GontainerModel.Model.Runtime
 import GontainerModel.Generated.Regex
 import GontainerModel.Generated.Wiring
 import GontainerModel.Model.Regexes
@@ -122,6 +124,72 @@ theorem fn_error_names_token (env : Token.Env) (t : Token.Token) (fn goFn params
     (hs : t.sem = .call fn goFn params) (he : env.call goFn params = .error e) :
     Token.evalToken env t = .error ("cannot execute " ++ t.raw ++ ": " ++ e) := by
   simp [Token.evalToken, hs, he]
+
+
+/-- **token classification** — the first-match chain (registered functions prepended, latest first, to the wired
+base order) handles a chunk exactly as the documented decision list says: a call of a registered function,
+`%%`, a `%name%` reference, an unknown function, a malformed `%…%` token, plain text — in this order -/
+theorem token_classification (fns : List Token.FnDef) (chunk : String) :
+    (Token.chain fns).find? (Token.supports · chunk) = some (Token.classify fns chunk) :=
+  Token.chain_find fns chunk
+
+/-- **build-time rejection, exactly**: a balanced pattern is tokenised successfully iff none of its chunks is an
+unknown-function or malformed token; every chunk is looked at (no early exit) -/
+theorem build_rejects_exactly (fns : List Token.FnDef) (st : Imports.St) (s : String) (cs : List (List Char))
+    (h : chunksE s.toList = .ok cs) :
+    (∃ ts, (Token.tokenize fns st s).2 = .ok ts) ↔ ∀ c ∈ cs, Token.rejected fns (String.ofList c) = false := by
+  unfold Token.tokenize
+  simp only [h]
+  have := Token.fold_errs fns cs (st, [], [])
+  simp only [true_and] at this
+  rw [← this]
+  cases hl : (List.foldl (Token.tokenizeStep fns) (st, [], []) cs).2.2 <;> simp
+
+/-- an unbalanced `%` is a build-time error that shows the unclosed rest -/
+theorem unbalanced_rejected (fns : List Token.FnDef) (st : Imports.St) (s : String) (b : List Char)
+    (h : chunksE s.toList = .error b) :
+    (Token.tokenize fns st s).2 = .error ["not closed token: " ++ Val.quoteStr (String.ofList b)] := by
+  unfold Token.tokenize
+  simp [h]
+
+/-- **`env`**: the variable's value when it is set (also when set to the empty string); otherwise the default when
+one is given; otherwise an error naming the variable -/
+theorem env_semantics (p : Runtime.Prog) (k : String) (rest : List Val) :
+    Runtime.builtinFn p "getEnv" (.str k :: rest) =
+      match p.env.lookup k, rest with
+      | some v, _ => .ok (.str v)
+      | none, (.str d) :: _ => .ok (.str d)
+      | none, _ => .error ("environment variable " ++ Val.quoteStr k ++ " does not exist") := by
+  simp only [Runtime.builtinFn]
+  cases List.lookup k p.env with
+  | some v => rfl
+  | none =>
+    cases rest with
+    | nil => rfl
+    | cons a t => cases a <;> rfl
+
+/-- **`envInt`**: the variable parsed as an integer (an error naming it when it is not one), else the default, else an error -/
+theorem envInt_semantics (p : Runtime.Prog) (k : String) (rest : List Val) :
+    Runtime.builtinFn p "getEnvInt" (.str k :: rest) =
+      match p.env.lookup k, rest with
+      | some v, _ => (match v.toInt? with
+        | some i => .ok (.int i)
+        | none => .error ("cannot cast env(" ++ Val.quoteStr k ++ ") to int"))
+      | none, (.int d) :: _ => .ok (.int d)
+      | none, _ => .error ("environment variable " ++ Val.quoteStr k ++ " does not exist") := by
+  simp only [Runtime.builtinFn]
+  cases List.lookup k p.env with
+  | some v => rfl
+  | none =>
+    cases rest with
+    | nil => rfl
+    | cons a t => cases a <;> rfl
+
+/-- **`todo`**: always an error — the given message, or `parameter todo` -/
+theorem todo_semantics (p : Runtime.Prog) (m : String) (rest : List Val) :
+    Runtime.builtinFn p "paramTodo" (.str m :: rest) = .error m ∧
+    Runtime.builtinFn p "paramTodo" [] = .error "parameter todo" := by
+  constructor <;> simp only [Runtime.builtinFn]
 
 /-- the casts used by concatenation (`exporter.CastToString`): strings as they are, booleans, nil, numbers without type -/
 theorem cast_table :
